@@ -121,9 +121,11 @@ CLOSING = (
     ("y", ("+", ("+", ("*", _c(0.5), _v("y", -1)), _c(0.4)), ("*", ("-", ("fn", "exp", _v("sy")), _c(1)), _v("x", -1)))),
     ("z", ("+", ("+", ("+", ("+", ("*", _c(0.3), _v("z", 1)), ("*", _c(0.25), _v("z", -1))), ("*", _c(0.15), _v("x", -1))),
                  _c(0.4)), _v("sz"))),
-    ("w", ("+", ("+", ("+", ("*", _c(0.6), _v("w", -1)), ("*", _c(0.2), _v("w", -2))), _c(0.1)), ("*", _v("sw"), _v("z")))),
+    ("w", ("+", ("+", ("+", ("+", ("*", _c(0.6), _v("w", -1)), ("*", _c(0.2), _v("w", -2))), ("*", _c(0.05), _v("y", 2))),
+                 _c(0.1)), ("*", _v("sw"), _v("z")))),
 )
 TSHOCKS = ("sx", "sy", "sz", "sw")
+MAX_LEAD = 2        # y[+2] in the closing equation of w: two terminal columns in the stacked-time oracle
 
 
 def has_lead(tr):
@@ -690,10 +692,10 @@ def oracle_stacked(model, pack, pts, rep, refs, terminal):
     T = len(pts)
     names = list(S.VARNAMES) + pack.vnames
     lg = pack.islog
-    # data table: name -> {t: value}, t = -1 .. T+1 (periods 1 .. T simulated, T+1 terminal)
+    # data table: name -> {t: value}, t = -1 .. T+1 (periods 1 .. T simulated, T+1 .. T+MAX_LEAD terminal)
     table = {}
     for i, n in enumerate(names):
-        table[n] = {t: _filler(i, t) for t in range(-1, T + 2)}
+        table[n] = {t: _filler(i, t) for t in range(-1, T + MAX_LEAD + 1)}
     for ti, (ci, pt) in enumerate(pts):
         for n in S.VARNAMES:
             table[n][1 + ti + S.SHIFT[n]] = pt[n][0]
@@ -703,7 +705,7 @@ def oracle_stacked(model, pack, pts, rep, refs, terminal):
     start = ir.ii(1)
     db = ir.Databox()
     for n in names:
-        db[n] = ir.Series(start=start - 2, values=tuple(table[n][t] for t in range(-1, T + 2)))
+        db[n] = ir.Series(start=start - 2, values=tuple(table[n][t] for t in range(-1, T + MAX_LEAD + 1)))
     c0, p_model = pts[0][0], pts[0][1]["p"]
     cap = capture_stacked(model, db, start >> start + T - 1, terminal)
     if "eval_func" not in cap:
@@ -712,9 +714,9 @@ def oracle_stacked(model, pack, pts, rep, refs, terminal):
         return
     guess, data = cap["init"], cap["args"][0]
     nq = len(names)
-    if guess.shape != (nq * T,) or data.ndim != 2 or data.shape[1] != T + 3:
+    if guess.shape != (nq * T,) or data.ndim != 2 or data.shape[1] != T + 2 + MAX_LEAD:
         rep.bad("stacked_shape", None, "guess %r data %r, expected %d unknowns and %d columns"
-                % (guess.shape, data.shape, nq * T, T + 3), terminal=terminal)
+                % (guess.shape, data.shape, nq * T, T + 2 + MAX_LEAD), terminal=terminal)
         return
     mine = np.array([math.log(table[n][t]) if lg.get(n) else table[n][t] for t in range(1, T + 1) for n in names])
     if not np.allclose(guess, mine, rtol=1e-12, atol=1e-12):
@@ -729,9 +731,13 @@ def oracle_stacked(model, pack, pts, rep, refs, terminal):
         rep.bad("stacked_shape", None, "func %r jacobian %r" % (func.shape, jac.shape), terminal=terminal)
         return
     if terminal == "first_order":
-        # the terminal value of the only variable with a lead is produced by the implementation's first-order
-        # continuation: it is part of the evaluation point and is read back from the data array
-        table["z"][T + 1] = float(data[model.create_name_to_qid()["z"], -1])
+        # the terminal values (periods T+1 .. T+MAX_LEAD) are produced by the implementation's first-order
+        # continuation: they are part of the evaluation point and are read back from the data array
+        # (column 0 of the data array is period -1)
+        n2q = model.create_name_to_qid()
+        for n in S.VARNAMES:
+            for k in range(1, MAX_LEAD + 1):
+                table[n][T + k] = float(data[n2q[n], T + k + 1])
     col = {(n, t): (t - 1) * nq + i for t in range(1, T + 1) for i, n in enumerate(names)}
 
     def get(name, t):
@@ -764,7 +770,7 @@ def oracle_stacked(model, pack, pts, rep, refs, terminal):
         t = 1 + ti
         for r, eq in enumerate(eqs):
             kind, lhs, rhs, slot = eq
-            reads_terminal = terminal == "first_order" and t == T and has_lead(rhs)
+            reads_terminal = terminal == "first_order" and any(t + s > T for _, s in E.occurrences(rhs))
             if slot is None:
                 resid, d = eq_ref(eq, get, t)
             elif reads_terminal:
@@ -798,7 +804,7 @@ def oracle_stacked(model, pack, pts, rep, refs, terminal):
                 mag[c] += mg * abs(vf)
             res.count("entries_c", jac.shape[1])
             sig = None
-            if terminal == "data" or not (t == T and any(s > 0 for _, s in d)):
+            if terminal == "data" or not any(t + s > T for _, s in d):
                 # no terminal value enters this row: the Jacobian row is the analytic one
                 badc = np.nonzero(~(np.abs(jac[row] - exp) <= _tolvec(exp, mag, user)))[0]
                 if len(badc):
@@ -831,7 +837,7 @@ def oracle_stacked(model, pack, pts, rep, refs, terminal):
                     else:
                         # rows with the terminal correction: the columns of periods before the last one carry no
                         # correction; the class is recognised there and by the tree having an active second argument
-                        early = np.arange(jac.shape[1]) < (T - 1) * nq if T > 1 else np.zeros(jac.shape[1], dtype=bool)
+                        early = np.arange(jac.shape[1]) < max(T - 2, 0) * nq
                         dropped = bool(floor_active_vars(rhs, get, t)) and \
                             bool(np.all(np.abs(jac[row] - alt)[early] <= _tolvec(alt, mag, user)[early]))
                 rep.value("stacked_jacobian", eq, detail, floor_dropped=dropped, terminal=terminal,
